@@ -65,6 +65,9 @@ type BuildOpts struct {
 	Probe     *Probe // nil: no wrappers at all
 	Interp    parsley.Interpreter
 	NoMemo    bool // ignore Memo flags of expressions (plain build for C03)
+	// CloneTrimOperand hands RightTrim a private copy of its operand's result, so that its
+	// in-place SetReaderPos (known finding KF-1) cannot reach a node anybody else holds.
+	CloneTrimOperand bool
 }
 
 // Built is a grammar turned into parsers.
@@ -196,7 +199,11 @@ func Build(g *Grammar, o BuildOpts) *Built {
 		case KLTrim:
 			p = text.LeftTrim(kids[0], text.WsMode(e.Mode))
 		case KRTrim:
-			p = text.RightTrim(kids[0], text.WsMode(e.Mode))
+			operand := kids[0]
+			if o.CloneTrimOperand {
+				operand = cloneResult(operand)
+			}
+			p = text.RightTrim(operand, text.WsMode(e.Mode))
 		}
 		if e.Name != "" && probe != nil && probe.LogFails {
 			q, name := p, e.Name
@@ -334,4 +341,34 @@ func parseGuarded(p parsley.Parser, ctx *parsley.Context, l data.IntMap, pos par
 	}()
 	n, _, perr = p.Parse(ctx, l, pos)
 	return n, perr, nil
+}
+
+// cloneResult returns shallow copies of the alternatives a parser returns.
+func cloneResult(p parsley.Parser) parsley.Parser {
+	cl := func(n parsley.Node) parsley.Node {
+		switch v := n.(type) {
+		case *ast.TerminalNode:
+			cp := *v
+			return &cp
+		case *ast.NonTerminalNode:
+			cp := *v
+			return &cp
+		}
+		return n
+	}
+	return parser.Func(func(ctx *parsley.Context, l data.IntMap, pos parsley.Pos) (parsley.Node, data.IntSet, parsley.Error) {
+		n, cp, err := p.Parse(ctx, l, pos)
+		switch v := n.(type) {
+		case nil:
+		case ast.NodeList:
+			nl := make(ast.NodeList, len(v))
+			for i, x := range v {
+				nl[i] = cl(x)
+			}
+			n = nl
+		default:
+			n = cl(n)
+		}
+		return n, cp, err
+	})
 }
